@@ -602,6 +602,10 @@ def rule_r6_r7(chk, p, t):
         ts_txt = unparse(ts) if ts is not None else ""
         base_ok = "start_date + timedelta(seconds=" in ts_txt or (start_alias and "self.datetime_start + timedelta(seconds=" in ts_txt)
         loopvar = loopvar - {"self"}
+        # the same scenario time converted by its own method is the same instant
+        for v_ in sorted(loopvar):
+            if f"{v_}.convertToDatetime(start_date)" in ts_txt or (start_alias and f"{v_}.convertToDatetime(self.datetime_start)" in ts_txt):
+                base_ok = True
         ok = bool(loopvar) and "convertToJulianDate(self.julian_date_start)" in unparse(jd_e) and base_ok and "isoformat(timespec='microseconds')" in ts_txt
         if ok:
             r7.ok(ci.qualname, f"both from `{sorted(loopvar)[0]}`", ci.loc(eps[0]))
